@@ -30,7 +30,7 @@ PHASES = ["main"]
 EXCLUDED_OPS = []
 
 FAULT_KINDS = ["io_extend", "io_setslice", "g_extend", "g_insert_before", "g_insert_after", "g_remove",
-               "g_remove_safe", "init_update", "conv_rename", "conv_rauw"]
+               "g_remove_safe", "init_update", "conv_rename", "conv_rauw", "g_sort_cycle", "io_setslice_ext"]
 
 
 def strategy(tier, phase):
@@ -190,6 +190,65 @@ def _fault_enum(u, op):
         for k in range(len(good) + 1):
             vals = good[:k] + [bad] + good[k:]
             st, f = attempt(lambda: conv.replace_all_uses_with(vals, [repl] * len(vals)), f"conv.replace_all_uses_with@k={min(k,2)}")
+            if f or st == "returned":
+                return calls, f
+    elif kind == "g_sort_cycle":
+        # multi-element "argument" = the (sub)graphs a sort has to process; the invalid element = the one containing a
+        # cycle, at every position k among acyclic-but-unsorted ones. sort() must raise and reorder nothing anywhere.
+        import onnx_ir as ir
+
+        m = 2 + nvalid % 3
+        for k in range(m):
+            holders = []
+            for j in range(m):
+                tag = f"sc{len(u.nodes)}_{j}"
+                if j == k:  # x <-> y cycle
+                    x = ir.Node("", "Neg", [None], num_outputs=1, name=tag + "x")
+                    y = ir.Node("", "Abs", [x.outputs[0]], num_outputs=1, name=tag + "y")
+                    x.replace_input_with(0, y.outputs[0])
+                    body = [x, y]
+                else:  # chain a -> b -> c stored as c, b, a
+                    a = ir.Node("", "Relu", [], num_outputs=1, name=tag + "a")
+                    b_ = ir.Node("", "Neg", [a.outputs[0]], num_outputs=1, name=tag + "b")
+                    c_ = ir.Node("", "Abs", [b_.outputs[0]], num_outputs=1, name=tag + "c")
+                    body = [c_, b_, a]
+                for n_ in body:
+                    n_.outputs[0].name = n_.name + "_o"
+                sub = ir.Graph([], [body[0].outputs[0]], nodes=body, name=tag + "g")
+                holder = ir.Node("", "If", [], [ir.AttrGraph("then_branch", sub)], num_outputs=1, name=tag + "h")
+                holders.append(holder)
+                for n_ in body + [holder]:
+                    u.reg_node(n_)
+                u.reg_graph(sub)
+            try:
+                H.extend(holders)
+            except Exception:
+                return calls, None
+            u.sweep()
+            st, f = attempt(lambda: H.sort(), f"sort-with-cycle-in-subgraph@k={min(k,2)}")
+            try:
+                H.remove(holders)
+            except Exception:
+                pass
+            u.sweep()
+            if f:
+                return calls, f
+    elif kind == "io_setslice_ext":
+        # extended-slice assignment whose right-hand side has the wrong length: every element is acceptable, the call as
+        # a whole is not (list semantics) - it must be rejected before any ownership is touched
+        coll = u.IO(H, c)
+        is_inputs = c % 2 == 0
+        valid = [v for v in u.values if not _role_owner(u, v) and (v.producer() is None or not is_inputs)]
+        if len(coll) < 2 or not valid:
+            return 0, None
+        want = len(range(*slice(None, None, 2).indices(len(coll))))
+        for size in range(0, want + 2):
+            if size == want:
+                continue
+            arg = [valid[(pick + j) % len(valid)] for j in range(size)]
+            if len({id(v) for v in arg}) != len(arg):
+                continue
+            st, f = attempt(lambda: coll.__setitem__(slice(None, None, 2), arg), f"{'inputs' if is_inputs else 'outputs'}.setslice-extended-size{min(size,2)}")
             if f or st == "returned":
                 return calls, f
     return calls, None
